@@ -43,7 +43,14 @@ def build(rec):
     import skfem
     from skfem.generic_utils import OrientedBoundary
     cls1 = getattr(skfem, rec['cls'])
-    m = cls1(np.array(rec['p'], dtype=np.float64), np.array(rec['t'], dtype=np.int64))
+    if rec.get('unsorted'):
+        # the cells keep the local vertex order of the recipe (MeshTri1 would sort it by default); 'oriented': the
+        # library's own way to such a mesh
+        m = cls1(np.array(rec['p'], dtype=np.float64), np.array(rec['t'], dtype=np.int64), sort_t=False)
+        if rec.get('oriented'):
+            m = m.oriented()
+    else:
+        m = cls1(np.array(rec['p'], dtype=np.float64), np.array(rec['t'], dtype=np.int64))
     if rec.get('order', 1) == 2:
         m = getattr(skfem, SECOND[rec['cls']]).from_mesh(m)
         if rec.get('curve'):
@@ -449,6 +456,20 @@ def make_recipe(kind, p, t, fam, rng, order, fmts, floats=False, curved=False, u
     return rec
 
 
+def _boundary_only(rec, rng):
+    """restrict the boundary names of a recipe (and of its history) to facets that lie in one cell only."""
+    import skfem
+    m = getattr(skfem, rec['cls'])(np.array(rec['p'], dtype=np.float64), np.array(rec['t'], dtype=np.int64))
+    bf = [int(x) for x in m.boundary_facets()]
+    for tags in [rec.get('bnd', {})] + ([rec['history']['bnd']] if rec.get('history') else []):
+        for name, b in tags.items():
+            k = max(1, min(len(bf), len(b['f'])))
+            f = [bf[int(j)] for j in rng.choice(len(bf), size=k, replace=False)]
+            if rng.random() < 0.2:
+                f.append(f[0])
+            tags[name] = {'f': f, 'ori': None if b.get('ori') is None else [0] * len(f)}
+
+
 def generate(tier, seed):
     rng = np.random.default_rng(seed + 17)
     thorough = tier == 'thorough'
@@ -472,6 +493,28 @@ def generate(tier, seed):
             if (n + rep) % (2 if thorough else 4) == 0:
                 recs.append(make_recipe(kind, p, t, fam + '-float', rng, 1 + (n // 4) % 2 if t.shape[1] <= 8 else 1,
                                         ['mem', 'gmsh22', 'gmsh41', 'vtk', 'vtu', 'npz'], floats=True, history=True))
+    # triangle / tetrahedral meshes whose cells keep an UNSORTED local vertex order (sort_t=False with scrambled local
+    # orders, results of oriented()): the loaders give MeshTri1 its own sorted order back, the tags must designate the
+    # same facets and cells
+    k = 0
+    for (kind, p, t, fam) in meshes:
+        if kind not in ('tri', 'tet') or t.shape[1] < 2 or 'renumbered' in fam:
+            continue
+        for variant in (0, 1):
+            if not thorough and (k + variant) % 2 and kind == 'tet':
+                continue
+            t2 = U.apply_local_orders(kind, np.asarray(t), rng)
+            r = make_recipe(kind, p, t2, fam + '-unsorted', rng, 1, ALL_FMTS, history=(k % 2 == 0))
+            if kind == 'tri':
+                # BOUNDARY facets only for the triangles for now: which of its two cells an interior facet's flag (or a
+                # plain array's implicit side) designates is read off f2t, whose row order depends on the local order -
+                # after the loader has re-sorted t the same flag names the other cell (reported to the coordinator as
+                # still open after efcdcea); interior facets are to be added here once that is settled
+                _boundary_only(r, rng)
+            r['unsorted'] = 1
+            r['oriented'] = variant
+            recs.append(r)
+        k += 1
     # meshes without any tag (None must not turn into an error), empty tag arrays
     for (kind, p, t, fam) in meshes[::5]:
         recs.append(make_recipe(kind, p, t, fam + '-untagged', rng, 1, ALL_FMTS, notags=True))
@@ -585,9 +628,6 @@ def run(ctx):
     ctx.notes['events_per_format'] = fm
     return ctx.finish(rule=RULE, assumptions=[
         'orientation flag 1 is only put on interior facets (flag 1 on a boundary facet has no owner cell)',
-        'triangle meshes are built with the class default sort_t=True: a MeshTri1 whose cells keep an unsorted local '
-        'vertex order (sort_t=False, e.g. the result of oriented()) is NOT explored - every loader re-sorts t, see the '
-        'report to the coordinator',
         'tag names are drawn from [A-Za-z0-9_.:-]; names with blanks are not explored '
         '(meshio refuses them for VTK)',
         'dictionary / JSON forms are exercised for first-order meshes only, as the statement says',
